@@ -215,6 +215,10 @@ func (tb *TB) Of(v ssa.Value, env *Env) *Term {
 // address-of wrappers of nested field chains are dropped (x.a.b reads as
 // field:b(field:a(x)) whether a is embedded by value or reached by pointer).
 func (tb *TB) base(v ssa.Value, env *Env) *Term {
+	if al, ok := v.(*ssa.Alloc); ok && len(StoresTo(al)) > 0 {
+		// a struct-typed local assigned as a whole: fields are those of the stored value
+		return tb.allocValue(al, al, env)
+	}
 	t := tb.Of(v, env)
 	if t.Op == "addr" && len(t.Args) == 1 {
 		return t.Args[0]
